@@ -613,6 +613,8 @@ class C16(PropertyCheck):
         "QipVerif.C16.args_unchanged",
         "QipVerif.C16.fresh_equivalent",
         "QipVerif.C16.repeat_equal",
+        "QipVerif.C16.fresh_equivalent_rng",
+        "QipVerif.C16.repeat_equal_rng",
         "QipVerif.C16.no_alias",
         "QipVerif.C16.fresh_equivalent_load",
         "QipVerif.C16.query_pure",
@@ -640,7 +642,8 @@ class C16(PropertyCheck):
                   "covered only by the snapshots of the correspondence. The theorems describe the repaired code (fixes "
                   "C02-1, C16-1, C16-2 as explicit hypotheses cfg.copyCbits / cfg.resetPhase / cfg.pureGetter); the "
                   "unrepaired behaviours are refuted by kernel-checked counter-examples replayed on the implementation. "
-                  "repeat_equal/fresh_equivalent take the numpy RNG state as an input of unconstrained runs. "
+                  "repeat_equal/fresh_equivalent hold for every deterministic call whatever the numpy RNG state (such calls are "
+                  "proved never to read it); for unconstrained runs the RNG state is an explicit input (…_rng). "
                   "Processor.run_state (numerical solver) is not exercised (QuTiP 5.3: qutip.Options missing).")
     trusted_base = [
         "Lean 4.33 kernel; axioms propext, Classical.choice, Quot.sound",
